@@ -73,6 +73,14 @@ def run_kind(kind, outdir, inp):
             iface = kj.events_interface(_r.Random(inp["iface_seed"]), inp.get("iface_table") or inp["table"], inp["lang"], inp.get("usertags"))
             if key is not None:
                 IFACES[key] = iface
+        extra = inp.get("iface_extra")
+        if extra and not getattr(iface, "_kv_extra_done", False):
+            # the model change also gives one event another parameter (on the caller's Interface object, in place)
+            for st in iface.Structs():
+                if st.Name == extra[0]:
+                    st.AddType(extra[1], extra[2])
+                    break
+            iface._kv_extra_done = True
         holder = None
         if inp.get("reuse_gen") is not None:      # the caller also keeps the generator OBJECT (built for this output directory)
             holder = GENS.setdefault((inp["reuse_gen"], os.path.abspath(outdir)), {})
